@@ -4,8 +4,10 @@ hash parameter instantiated by the executable specs: MD5 (Spec/Md5), SHA-256 (Sp
 lookup3 `hashlittle` (Model/Jenkins, = Spec/Lookup3 by Props/C09).
 
   begin <kind> [args] <hex>      set the base artifact (kind: enc aidx aidxc lru upd lhdr seg v1) → ok
-  load | flip <bit> | sub <pos> <byte> | trunc <n> | ext <pos> <hex>
+  load | flip <bit> | sub <pos> <byte> | sub2 <pos> <byte> <pos> <byte> | trunc <n> | ext <pos> <hex>
                                  evaluate the acceptor on the (mutated) base artifact
+  fvalid                         (after an aidx / aidxc line) `IndexFooter::is_valid` of the last 28 bytes read
+                                 field by field: valid=0|1, or `short`
   v1ck                           (after a v1 line) the checksum text extract_checksum found
   fields                         (after an aidx line) the footer fields of the accepted index
   encmap                         (after an enc line) for an accepted table: page counts, number of ESpec
@@ -16,6 +18,10 @@ lookup3 `hashlittle` (Model/Jenkins, = Spec/Lookup3 by Props/C09).
   begin cache hooks=<0|1> skip=<n> layers=<n>
   putv k c v | putl i k v | corrupt i k v | getv k <c|none> | has k
   caput c v | cacorrupt c v | caget c
+  cagetf c <n> <put|once> <alt|none>
+                                 get_validated while the backing store answers `alt` (none = entry gone) at
+                                 the n-th read of this call (`put`: rewritten just before that read and from
+                                 then on; `once`: that read only) → outcome and `reads=<number of reads made>`
 -/
 import Driver.Common
 import Cascette.Model.Integrity
@@ -42,7 +48,9 @@ structure St where
   kind : String := ""
   base : Bytes := []
   param : Nat := 0
-  last : Bytes := []          -- last evaluated v1 input
+  last : Bytes := []          -- last evaluated input
+  lastOk : Bool := false      -- enc: the last evaluated table was accepted
+  lastV1 : String := "none"   -- v1: the `v1ck` answer of the last evaluated input
   cfg : Cache.Cfg := ⟨true, 0⟩
   layers : List Cache.Layer := []
   ca : Cache.Layer := []
@@ -92,10 +100,11 @@ def evalArtifact (kind : String) (param : Nat) (d : Bytes) : String :=
     | .pass _ _ => "pass"
   | _ => "bad-op"
 
-/-- `encmap`: what an accepted encoding table looks like through the model's layout. -/
-def encMap (d : Bytes) : String :=
-  match Enc.parse md5H d, Enc.readHeader d with
-  | .ok _, .ok h =>
+/-- `encmap`: what an accepted encoding table looks like through the model's layout (`ok` = the
+verdict of `Enc.parse` on `d`, computed once by the line before). -/
+def encMap (ok : Bool) (d : Bytes) : String :=
+  match ok, Enc.readHeader d with
+  | true, .ok h =>
     let L := Enc.layout h
     let one (idxOff pagesOff ps n : Nat) (acc : Nat) : Nat :=
       ((List.range n).zip (Enc.pageMap d idxOff pagesOff ps n)).foldl (fun a (i, (sum, page)) =>
@@ -126,8 +135,19 @@ def key16? (s : String) : Option Bytes :=
   | some b => if b.length = 16 then some b else none
   | none => none
 
+/-- evaluate the acceptor once; the follow-up lines (`encmap`, `v1ck`) reuse the verdict. -/
 def mutate (st : St) (d : Bytes) : St × String :=
-  ({ st with last := d }, evalArtifact st.kind st.param d)
+  match st.kind with
+  | "enc" =>
+    match Enc.parse md5H d with
+    | .ok (c, e) => ({ st with last := d, lastOk := true }, s!"ok c={c} e={e}")
+    | .error e => ({ st with last := d, lastOk := false }, encErr e)
+  | "v1" =>
+    match V1.check shaH d with
+    | .checksumErr => ({ st with last := d, lastV1 := "err:checksum" }, "err:checksum")
+    | .pass _ none => ({ st with last := d, lastV1 := "none" }, "pass")
+    | .pass _ (some c) => ({ st with last := d, lastV1 := hexOf c }, "pass")
+  | _ => ({ st with last := d }, evalArtifact st.kind st.param d)
 
 def handle (st : St) : List String → St × String
   | ["begin", "cache", h, sk, ly] =>
@@ -139,15 +159,19 @@ def handle (st : St) : List String → St × String
     | _, _, _ => (st, "bad-op")
   | ["begin", "consts"] => ({ st with kind := "consts" }, "ok")
   | ["consts"] => if st.kind == "consts" then (st, constsStr) else (st, "bad-op")
-  | ["encmap"] => if st.kind == "enc" then (st, encMap st.last) else (st, "bad-op")
+  | ["encmap"] => if st.kind == "enc" then (st, encMap st.lastOk st.last) else (st, "bad-op")
+  | ["fvalid"] =>
+    if st.kind != "aidx" && st.kind != "aidxc" then (st, "bad-op") else
+    if st.last.length < 28 then (st, "short") else
+    (st, if Aidx.isValid md5H (st.last.drop (st.last.length - 28)) then "valid=1" else "valid=0")
   | ["begin", "lhdr", p, hx] =>
     match p.toNat?, parseHex hx with
-    | some p, some b => ({ st with kind := "lhdr", base := b, param := p, last := b }, "ok")
+    | some p, some b => ({ st with kind := "lhdr", base := b, param := p, last := b, lastOk := false, lastV1 := "none" }, "ok")
     | _, _ => (st, "bad-op")
   | ["begin", kind, hx] =>
     if ["enc", "aidx", "aidxc", "lru", "upd", "seg", "v1"].contains kind then
       match parseHex hx with
-      | some b => ({ st with kind := kind, base := b, param := 0, last := b }, "ok")
+      | some b => ({ st with kind := kind, base := b, param := 0, last := b, lastOk := false, lastV1 := "none" }, "ok")
       | none => (st, "bad-op")
     else (st, "bad-op")
   | ["load"] => if st.kind == "cache" || st.kind == "consts" || st.kind == "" then (st, "bad-op") else mutate st st.base
@@ -165,6 +189,14 @@ def handle (st : St) : List String → St × String
     match pos.toNat?, byte.toNat? with
     | some i, some x => if i < st.base.length ∧ x < 256 then mutate st (st.base.set i (BitVec.ofNat 8 x)) else (st, "bad-op")
     | _, _ => (st, "bad-op")
+  | ["sub2", p1, x1, p2, x2] =>
+    if st.kind == "cache" || st.kind == "" then (st, "bad-op") else
+    match p1.toNat?, x1.toNat?, p2.toNat?, x2.toNat? with
+    | some i, some x, some j, some y =>
+      if i < st.base.length ∧ j < st.base.length ∧ i ≠ j ∧ x < 256 ∧ y < 256 then
+        mutate st ((st.base.set i (BitVec.ofNat 8 x)).set j (BitVec.ofNat 8 y))
+      else (st, "bad-op")
+    | _, _, _, _ => (st, "bad-op")
   | ["trunc", n] =>
     if st.kind == "cache" || st.kind == "" then (st, "bad-op") else
     match n.toNat? with
@@ -180,12 +212,7 @@ def handle (st : St) : List String → St × String
     match Aidx.footerCheck md5H true st.last with
     | .pass v ob ekl cnt => (st, s!"v={v} ob={ob} ekl={ekl} cnt={cnt}")
     | _ => (st, "rejected")
-  | ["v1ck"] =>
-    if st.kind != "v1" then (st, "bad-op") else
-    match V1.check shaH st.last with
-    | .checksumErr => (st, "err:checksum")
-    | .pass _ none => (st, "none")
-    | .pass _ (some c) => (st, hexOf c)
+  | ["v1ck"] => if st.kind != "v1" then (st, "bad-op") else (st, st.lastV1)
   | ["big", n] =>
     -- a value of `n` bytes read back under a content key that is not its MD5 (the harness does
     -- not ship the 100 MiB value through the protocol): only the size exemption decides
@@ -248,6 +275,16 @@ def handle (st : St) : List String → St × String
     match key16? c with
     | some c => (st, outStr (Cache.caGet md5H st.ca c))
     | none => (st, "bad-op")
+  | ["cagetf", c, n, mode, alt] =>
+    if st.kind != "cache" then (st, "bad-op") else
+    match key16? c, n.toNat?, (if mode == "put" then some true else if mode == "once" then some false else none),
+          (if alt == "none" then some none else (parseHex alt).map some) with
+    | some c, some n, some stays, some alt =>
+      if n = 0 ∨ 3 < n then (st, "bad-op") else
+      let f : Cache.Fault := ⟨n, stays, alt⟩
+      let (o, made) := Cache.caGetReads md5H (f.reads (Cache.lookup c st.ca)) c
+      ({ st with ca := f.after c st.ca made }, s!"{outStr o} reads={made}")
+    | _, _, _, _ => (st, "bad-op")
   | _ => (st, "bad-op")
 
 def main : IO Unit := do
